@@ -68,6 +68,7 @@ type Snapshot struct {
 	Sizes  map[string]uint16   `json:"sizes"`
 	Used   uint32              `json:"used"`
 	Cap    uint32              `json:"cap"`
+	Last   string              `json:"last,omitempty"` // cache.LastValue (serialised with the session)
 }
 
 func TakeSnapshot(st *state.State, ca *cache.Cache) *Snapshot {
@@ -77,7 +78,7 @@ func TakeSnapshot(st *state.State, ca *cache.Cache) *Snapshot {
 	s := &Snapshot{
 		Path: append([]string{}, st.ExecPath...), Idx: st.SizeIdx, Flags: append([]byte{}, st.Flags...),
 		Code: append([]byte{}, st.Code...), Moves: st.Moves, Used: ca.CacheUseSize, Cap: ca.CacheSize,
-		Sizes: map[string]uint16{},
+		Sizes: map[string]uint16{}, Last: ca.LastValue,
 	}
 	if st.Language != nil {
 		s.Lang = st.Language.Code
